@@ -1,6 +1,8 @@
 import DFV.Lemmas.C11Trip
 import DFV.Lemmas.C11Complex
 import DFV.Lemmas.C11Ex
+import DFV.Lemmas.C11More
+import DFV.Lemmas.C11PolyC
 /-!
 # C11 — field FFTs are the discrete Fourier transform at the k-mesh's frequencies
 
@@ -13,6 +15,12 @@ single-cell axes.  Part (b) is about the model of `Field.fftn / ifftn / rfftn / 
 arbitrary commutative ring `R`; `exp(-2πi/n)` enters as a per-axis parameter `ρ : Root R` whose
 properties (`IsRoot n ρ`: `w^n = 1`, `w·wi = 1`, `ninv·n = 1`, `Σ_j w^(jk) = 0` for `0<k<n`) are
 explicit hypotheses — satisfied by `exp(-2πi/n) ∈ ℂ` for every `n ≥ 1` (`complex_roots_exist`).
+Part (c) ties the driver to part (b): the driver runs the generic model over formal combinations
+of root-of-unity monomials (`Poly`); evaluation `Ev.eval` of such combinations into any
+commutative ring preserves `0 1 + *` for arbitrary `ζ_a`, respects `Poly.conj` and the printed
+dense form once `ζ_a^(n_a) = 1`, and the whole code-shaped model commutes with it — so what the
+harness computes from the driver's output is the value of the model over `R`, to which the
+theorems of part (b) apply.
 -/
 namespace DFV.C11
 open DFV
@@ -397,6 +405,272 @@ theorem complex_roots_exist (ns : List Nat) (h : ∀ n ∈ ns, 0 < n) :
     Roots ns (ns.map cRoot) ∧ IsConj (starRingEnd ℂ) ∧ ConjRoots (starRingEnd ℂ) ns (ns.map cRoot) :=
   ⟨cRoots ns h, conj_isConj, cConjRoots ns⟩
 
+/-! ## (b, continued) inverse transform, Parseval, Hermitian symmetry -/
+
+section ring2
+variable {R : Type} [CommRing R]
+
+/-- **Forward ∘ inverse = identity**: `fftshift(fftn(ifftn(ifftshift(A))))` holds `A` again in every
+cell and component, for every shape (orthogonality of the roots, summed over real space). -/
+theorem fftn_ifftn_values (ρs : List (Root R)) (nv : Nat) (a : NDA (List R)) (hρ : Roots a.shape ρs)
+    (m : List Nat) (hm : inRange a.shape m = true) (c : Nat) (hc : c < nv) :
+    compA (fftnArr ρs nv (ifftnArr ρs nv a)) c m = compA a c m :=
+  fftn_ifftn_arr ρs nv a hρ m hm c hc
+
+/-- **The inverse transform is the inverse DFT at the k-cells' frequencies.**  Every component
+of every real-space cell `j` of `Field.ifftn` holds `Π_a(1/n_a)` times the sum over all k-cells
+`m` of `value(m) · Π_a wi_a^(m_a·j_a) · w_a^(⌊n_a/2⌋·j_a)`, i.e. `value(m)·exp(+2πi k_m·r_j)` with
+`k_m` the centre of k-cell `m` (`kcell_centres_formula`) — the code-shaped axis-by-axis inverse
+after `ifftshift` equals the one-sum specification. -/
+theorem ifftn_is_idft (ρs : List (Root R)) (f g : CF R) (h : ifftn ρs f = .ok g)
+    (hρ : Roots f.data.shape ρs) (j : List Nat) (c : Nat) (hc : c < f.nvdim) :
+    compA g.data c j = ninvProd ρs f.data.shape *
+      sumBox f.data.shape fun m => compA f.data c m * phase (ρs.map Root.swap) f.data.shape m j := by
+  unfold ifftn at h
+  split at h
+  · cases h
+  · rw [(finish_ok h).2.1]
+    exact ifftnArr_is_idft ρs f.nvdim f.data hρ j c hc
+
+/-- the inverse roots `(wi, w, 1/n)` satisfy the root hypotheses whenever `(w, wi, 1/n)` do, so
+`phase (ρs.map Root.swap)` in `ifftn_is_idft` is the phase of the conjugate frequencies -/
+theorem inverse_roots_are_roots (ns : List Nat) (ρs : List (Root R)) (h : Roots ns ρs) :
+    Roots ns (ρs.map Root.swap) :=
+  Roots.swap ns ρs h
+
+/-- **Plancherel**: for two arrays of the same shape, `Σ_m F_a[m]·conj F_b[m] = N · Σ_r a[r]·conj b[r]`
+per component, the sums running over all k-cells / all cells and `N` the number of cells. -/
+theorem plancherel_fftn (conj : R → R) (hc : IsConj conj) (ρs : List (Root R)) (nv : Nat) (a b : NDA (List R))
+    (hs : b.shape = a.shape) (hρ : Roots a.shape ρs) (hcr : ConjRoots conj a.shape ρs) (c : Nat) (hcv : c < nv) :
+    sumBox a.shape (fun m => compA (fftnArr ρs nv a) c m * conj (compA (fftnArr ρs nv b) c m))
+      = (natProd a.shape : R) * sumBox a.shape (fun r => compA a c r * conj (compA b c r)) :=
+  parseval_fftnArr conj hc ρs nv a b hs hρ hcr c hcv
+
+/-- **Parseval** for `Field.fftn`: the summed squared modulus of every component of the spectrum
+is `N` times that of the field. -/
+theorem parseval_fftn (conj : R → R) (hc : IsConj conj) (ρs : List (Root R)) (f g : CF R) (h : fftn ρs f = .ok g)
+    (hρ : Roots f.data.shape ρs) (hcr : ConjRoots conj f.data.shape ρs) (c : Nat) (hcv : c < f.nvdim) :
+    sumBox f.data.shape (fun m => compA g.data c m * conj (compA g.data c m))
+      = (natProd f.data.shape : R) * sumBox f.data.shape (fun r => compA f.data c r * conj (compA f.data c r)) := by
+  unfold fftn at h
+  split at h
+  · cases h
+  · rw [(finish_ok h).2.1]
+    exact parseval_fftnArr conj hc ρs f.nvdim f.data f.data rfl hρ hcr c hcv
+
+/-- **Hermitian symmetry of the spectrum of a real field**: for conj-fixed data, the k-cell of
+the opposite frequency (`mirror`: unshift, negate mod the counts, shift back) holds the
+conjugate value, in every component. -/
+theorem spectrum_hermitian (conj : R → R) (hc : IsConj conj) (ρs : List (Root R)) (f g : CF R)
+    (h : fftn ρs f = .ok g) (hρ : Roots f.data.shape ρs) (hcr : ConjRoots conj f.data.shape ρs)
+    (hreal : ∀ i c, conj (compA f.data c i) = compA f.data c i)
+    (m : List Nat) (hm : inRange f.data.shape m = true) (c : Nat) (hcv : c < f.nvdim) :
+    inRange f.data.shape (mirror f.data.shape m) = true ∧
+    conj (compA g.data c (mirror f.data.shape m)) = compA g.data c m := by
+  unfold fftn at h
+  split at h
+  · cases h
+  · rw [(finish_ok h).2.1]
+    exact ⟨mirror_inRange _ _ hm, fftnArr_hermitian conj hc ρs f.nvdim f.data hρ hcr hreal m hm c hcv⟩
+
+/-- **Linearity of the real transform** -/
+theorem rfft_linear (ρs : List (Root R)) (nv : Nat) (a b ab : NDA (List R)) (α β : R)
+    (hs : b.shape = a.shape) (hs' : ab.shape = a.shape)
+    (hab : ∀ i c, compA ab c i = α * compA a c i + β * compA b c i)
+    (m : List Nat) (c : Nat) (hc : c < nv) :
+    compA (rfftnArr ρs nv ab) c m = α * compA (rfftnArr ρs nv a) c m + β * compA (rfftnArr ρs nv b) c m := by
+  rw [rfftnArr_get _ _ _ _ _ hc, rfftnArr_get _ _ _ _ _ hc, rfftnArr_get _ _ _ _ _ hc, hs, hs',
+    ← dftN_linear]
+  congr 1
+  funext i
+  exact hab i c
+
+/-- **Linearity of `ifftn`** on arrays: the inverse of `α·A + β·B` is `α·ifftn(A) + β·ifftn(B)` -/
+theorem ifftn_linear (ρs : List (Root R)) (nv : Nat) (a b ab : NDA (List R)) (α β : R)
+    (hs : b.shape = a.shape) (hs' : ab.shape = a.shape)
+    (hab : ∀ i c, compA ab c i = α * compA a c i + β * compA b c i)
+    (j : List Nat) (c : Nat) (hc : c < nv) :
+    compA (ifftnArr ρs nv ab) c j = α * compA (ifftnArr ρs nv a) c j + β * compA (ifftnArr ρs nv b) c j := by
+  rw [ifftnArr_get _ _ _ _ _ hc, ifftnArr_get _ _ _ _ _ hc, ifftnArr_get _ _ _ _ _ hc, hs, hs',
+    ← ifft_linear]
+  congr 1
+  funext i
+  exact hab _ c
+
+/-- **A field that is non-zero in a single cell** `r0` (value `v` in component `c`) transforms
+to the pure phase `v · exp(-2πi k·r0)` in every k-cell; in particular a delta in the first cell
+transforms to the constant `v`. -/
+theorem fftn_delta (ρs : List (Root R)) (f g : CF R) (h : fftn ρs f = .ok g) (hρ : Roots f.data.shape ρs)
+    (r0 : List Nat) (hr : inRange f.data.shape r0 = true) (c : Nat) (hc : c < f.nvdim)
+    (hf : ∀ i, inRange f.data.shape i = true → i ≠ r0 → compA f.data c i = 0)
+    (m : List Nat) (hm : inRange f.data.shape m = true) :
+    compA g.data c m = compA f.data c r0 * phase ρs f.data.shape m r0 := by
+  rw [fftn_is_dft ρs f g h hρ m hm c hc]
+  rw [sumBox_single f.data.shape _ r0 hr (fun i hi hne => by rw [hf i hi hne, zero_mul])]
+
+end ring2
+
+/-- **The mirror cell has the opposite frequency.**  Per axis the mirror index of `j` is
+`(2⌊n/2⌋ - j) mod n`; its k-cell centre is minus the centre of k-cell `j`, except for the
+Nyquist cell `j = 0` of an even axis, which is its own mirror (frequencies `∓1/(2·cell)` are one
+sampling period apart). -/
+theorem mirror_opposite_frequency (m : Mesh) (k : Mesh) (h : meshFftn m false = .ok k) (hm : m.Inv)
+    (j : List Nat) (hj : inRange m.n j = true) (a : Nat) (ha : a < m.ndim) :
+    (mirror m.n j).getD a 0 = (2 * (m.nAt a / 2) - j.getD a 0) % m.nAt a ∧
+    (¬ (j.getD a 0 = 0 ∧ m.nAt a % 2 = 0) →
+      k.centreAx a (((mirror m.n j).getD a 0 : Nat) : Int) = - k.centreAx a ((j.getD a 0 : Nat) : Int)) ∧
+    (j.getD a 0 = 0 ∧ m.nAt a % 2 = 0 → (mirror m.n j).getD a 0 = 0) := by
+  have hal : a < m.n.length := by rw [hm.2.1]; exact ha
+  have hmir : (mirror m.n j).getD a 0 = (2 * (m.nAt a / 2) - j.getD a 0) % m.nAt a :=
+    mirror_getD m.n j hj a hal
+  have hlt : j.getD a 0 < m.nAt a := inRange_getD m.n j hj a hal
+  refine ⟨hmir, ?_, ?_⟩
+  · intro hny
+    have hlt2 : 2 * (m.nAt a / 2) - j.getD a 0 < m.nAt a := by omega
+    rw [hmir, Nat.mod_eq_of_lt hlt2, kcell_centres_formula m k h hm a ha, kcell_centres_formula m k h hm a ha]
+    have hle : j.getD a 0 ≤ 2 * (m.nAt a / 2) := by omega
+    simp only [Int.cast_natCast]
+    rw [Nat.cast_sub hle]
+    push_cast
+    ring
+  · intro hny
+    rw [hmir, hny.1]
+    have : 2 * (m.nAt a / 2) - 0 = m.nAt a := by omega
+    rw [this, Nat.mod_self]
+
+/-! ## (c) the driver's formal root-of-unity arithmetic -/
+
+section eval
+variable {R : Type} [CommRing R]
+
+/-- **The formal arithmetic is sound.**  Evaluation of the driver's formal combinations
+(`Poly`: sums = concatenation of term lists, products = added exponent vectors and multiplied
+Gaussian-rational coefficients) into any commutative ring — rationals through a ring
+homomorphism, the imaginary unit to an `I` with `I² = -1`, the formal root of axis `a` to an
+ARBITRARY `ζ_a` — preserves `0`, `1`, `+` and `·`, sends constants to `q re + q im·I` and the
+monomial `ζ_a^k` to `ζ_a^k`.  No hypothesis on the roots is used by the arithmetic. -/
+theorem poly_eval_hom (ev : Ev R) (d : Nat) :
+    IsHom (ev.eval d) ∧ (∀ re im, ev.eval d (Poly.const re im) = ev.q re + ev.q im * ev.I) ∧
+    (∀ a k, a < d → ev.eval d (Poly.mono a k) = ev.ζ a ^ k) :=
+  ⟨ev.eval_isHom d, fun re im => ev.eval_const d re im, fun a k ha => ev.eval_mono d a k ha⟩
+
+/-- **`Poly.conj` is conjugation** (exponents `e ↦ (n - e mod n) mod n`, `i ↦ -i`) for every
+conjugation of `R` that fixes the rationals, negates `I` and inverts the `ζ_a`, once
+`ζ_a^(n_a) = 1`. -/
+theorem poly_conj_is_conj (ev : Ev R) (conj : R → R) (ns : List Nat) (hc : ev.ConjOK conj ns.length)
+    (hpos : ∀ a, a < ns.length → 0 < ns.getD a 1) (hζ : ∀ a, a < ns.length → ev.ζ a ^ ns.getD a 1 = 1)
+    (p : Poly) : ev.eval ns.length (Poly.conj ns p) = conj (ev.eval ns.length p) :=
+  ev.eval_conj conj ns hc hpos hζ p
+
+/-- **Exponent reduction and collection of like monomials keep the value.**  The table the
+driver prints (`Poly.dense`: exponents reduced mod the counts, coefficients of equal monomials
+added, indexed by the C-order flat exponent index) evaluates — `Σ_k c_k · Π_a ζ_a^(unflat(k)_a)`,
+which is what the harness computes — to the value of the combination, once `ζ_a^(n_a) = 1`. -/
+theorem poly_dense_value (ev : Ev R) (ns : List Nat) (hpos : ∀ a, a < ns.length → 0 < ns.getD a 1)
+    (hζ : ∀ a, a < ns.length → ev.ζ a ^ ns.getD a 1 = 1) (p : Poly) :
+    ev.evalDense ns (Poly.dense ns p) = ev.eval ns.length p :=
+  ev.evalDense_dense ns hpos hζ p
+
+/-- **The driver's formal roots evaluate to roots.**  If every `ζ_a` is a primitive `n_a`-th
+root of unity (`ζ^n = 1`, `Σ_j ζ^(jk) = 0` for `0<k<n`), the images of `Poly.roots ns` —
+`(ζ_a, ζ_a^(n_a-1), q(1/n_a))` — satisfy the hypotheses `Roots` of the value theorems, and a
+conjugation as in `poly_conj_is_conj` inverts them (`ConjRoots`). -/
+theorem poly_roots_are_roots (ev : Ev R) (ns : List Nat) (h : PrimRoots ev ns) :
+    (Poly.roots ns).map (Root.map (ev.eval ns.length)) = ev.roots ns ∧ Roots ns (ev.roots ns) ∧
+    ∀ conj, ev.ConjOK conj ns.length → ConjRoots conj ns (ev.roots ns) :=
+  ⟨ev.eval_roots ns, ev.roots_Roots ns h, fun conj hc =>
+    ev.roots_ConjRoots conj ns hc (fun a ha => (h a ha).1) (fun a ha => (h a ha).2.pow_n)⟩
+
+end eval
+
+section natural
+variable {S R : Type} [Zero S] [One S] [Add S] [Mul S] [Zero R] [One R] [Add R] [Mul R]
+
+/-- **The code-shaped model is natural in its carrier.**  For every map `φ` preserving
+`0 1 + *` (no ring law needed on either side), `Field.fftn`, `Field.rfftn` and `Field.ifftn` of the
+`φ`-image of a field, with the `φ`-images of the root parameters, are the `φ`-images of the
+results (same mesh, labels, mapping, unit, error/success; data mapped cell by cell). -/
+theorem transforms_commute_with_hom (φ : S → R) (h : IsHom φ) (ρs : List (Root S)) (f : CF S) :
+    fftn (ρs.map (Root.map φ)) (f.map φ) = mapM φ (fftn ρs f) ∧
+    rfftn (ρs.map (Root.map φ)) (f.map φ) = mapM φ (rfftn ρs f) ∧
+    ifftn (ρs.map (Root.map φ)) (f.map φ) = mapM φ (ifftn ρs f) :=
+  ⟨h.fftn ρs f, h.rfftn ρs f, h.ifftn ρs f⟩
+
+/-- the same for `Field.irfftn`, for conjugations `cS`, `cR` that `φ` intertwines -/
+theorem irfftn_commutes_with_hom (φ : S → R) (h : IsHom φ) (cS : S → S) (cR : R → R)
+    (hc : ∀ x, φ (cS x) = cR (φ x)) (ρs : List (Root S)) (f : CF S) (shape : Option (List Nat)) :
+    irfftn cR (ρs.map (Root.map φ)) (f.map φ) shape = mapM φ (irfftn cS ρs f shape) :=
+  h.irfftn cS cR hc ρs f shape
+
+end natural
+
+section driver
+variable {R : Type} [CommRing R]
+
+/-- **What the driver computes, evaluated, is the model over `R`.**  For the three transforms
+the driver runs as `T (Poly.roots shape) f`: evaluating every cell of the symbolic result is the
+same as running the model over `R` with the evaluated roots on the evaluated input.  (No
+hypothesis on the `ζ_a`.) -/
+theorem driver_evaluates_to_model (ev : Ev R) (f : CF Poly) :
+    mapM (ev.eval f.data.shape.length) (fftn (Poly.roots f.data.shape) f)
+      = fftn (ev.roots f.data.shape) (f.map (ev.eval f.data.shape.length)) ∧
+    mapM (ev.eval f.data.shape.length) (rfftn (Poly.roots f.data.shape) f)
+      = rfftn (ev.roots f.data.shape) (f.map (ev.eval f.data.shape.length)) ∧
+    mapM (ev.eval f.data.shape.length) (ifftn (Poly.roots f.data.shape) f)
+      = ifftn (ev.roots f.data.shape) (f.map (ev.eval f.data.shape.length)) := by
+  have hh := ev.eval_isHom f.data.shape.length
+  refine ⟨?_, ?_, ?_⟩
+  · rw [← hh.fftn, ev.eval_roots]
+  · rw [← hh.rfftn, ev.eval_roots]
+  · rw [← hh.ifftn, ev.eval_roots]
+
+/-- the same for `irfftn`, which the driver runs as `irfftn (Poly.conj s) (Poly.roots s) f shape`
+with `s` the output counts: needs `ζ_a^(s_a) = 1` (for `Poly.conj`) -/
+theorem driver_irfftn_evaluates_to_model (ev : Ev R) (conj : R → R) (s : List Nat) (hc : ev.ConjOK conj s.length)
+    (hpos : ∀ a, a < s.length → 0 < s.getD a 1) (hζ : ∀ a, a < s.length → ev.ζ a ^ s.getD a 1 = 1)
+    (f : CF Poly) (shape : Option (List Nat)) :
+    mapM (ev.eval s.length) (irfftn (Poly.conj s) (Poly.roots s) f shape)
+      = irfftn conj (ev.roots s) (f.map (ev.eval s.length)) shape := by
+  rw [← (ev.eval_isHom s.length).irfftn (Poly.conj s) conj (fun p => ev.eval_conj conj s hc hpos hζ p),
+    ev.eval_roots]
+
+/-- **The driver's printed spectrum is the DFT at the k-cell's frequency.**  End to end for
+`Field.fftn`: take the symbolic result `g` of the driver's run on `f`, the printed dense table of
+any component of any cell `m`, and evaluate it the harness's way with primitive roots `ζ_a`: the
+value is the textbook sum `Σ_r value(r) · Π_a ζ_a^(m_a r_a) · ζ_a^(-⌊n_a/2⌋ r_a)` over all
+real-space cells.  Everything between the driver's arithmetic and the specification is proved;
+what remains trusted is the JSON glue and the floating-point evaluation of `exp`. -/
+theorem driver_fftn_is_dft (ev : Ev R) (f g : CF Poly) (h : fftn (Poly.roots f.data.shape) f = .ok g)
+    (hp : PrimRoots ev f.data.shape) (m : List Nat) (hm : inRange f.data.shape m = true)
+    (c : Nat) (hc : c < f.nvdim) :
+    ev.evalDense f.data.shape (Poly.dense f.data.shape (compA g.data c m))
+      = sumBox f.data.shape fun r =>
+          ev.eval f.data.shape.length (compA f.data c r) * phase (ev.roots f.data.shape) f.data.shape m r := by
+  have hh := ev.eval_isHom f.data.shape.length
+  rw [ev.evalDense_dense f.data.shape (fun a ha => (hp a ha).1) (fun a ha => (hp a ha).2.pow_n)]
+  have h1 := (driver_evaluates_to_model ev f).1
+  rw [h] at h1
+  have h2 := fftn_is_dft (ev.roots f.data.shape) (f.map (ev.eval f.data.shape.length)) _ h1.symm
+    (ev.roots_Roots _ hp) m hm c hc
+  rw [← compA_mapA hh g.data c m]
+  rw [show (g.map (ev.eval f.data.shape.length)).data = mapA (ev.eval f.data.shape.length) g.data from rfl] at h2
+  rw [h2]
+  apply sumBox_congr
+  intro r _
+  rw [show (f.map (ev.eval f.data.shape.length)).data = mapA (ev.eval f.data.shape.length) f.data from rfl,
+    compA_mapA hh]
+  rfl
+
+/-- **The hypotheses of part (c) are satisfiable for every shape, by the harness's own
+substitution**: rationals into ℂ, `I ↦ i`, `ζ_a ↦ exp(-2πi/n_a)` are primitive roots, complex
+conjugation is a conjugation for them, and the driver's formal roots evaluate to exactly the
+complex root structures of `complex_roots_exist`. -/
+theorem driver_complex (ns : List Nat) (h : ∀ n ∈ ns, 0 < n) :
+    PrimRoots (cEv ns) ns ∧ (cEv ns).ConjOK (starRingEnd ℂ) ns.length ∧ (cEv ns).roots ns = ns.map cRoot :=
+  ⟨cEv_prim ns h, cEv_conj ns h, cEv_roots ns h⟩
+
+end driver
+
 /-! ## Non-vacuity -/
 
 /-- the mesh hypotheses of the geometry theorems hold for it, so `Mesh.fftn` succeeds on it for
@@ -421,5 +695,19 @@ example : Roots [2, 1] [(⟨-1, -1, 1/2⟩ : Root ℚ), ⟨1, 1, 1⟩] := by
     subst this
     simp [sumN]
   · intro k hk hk2; omega
+
+/-- the evaluation hypotheses hold for the example shape with the harness's substitution, so
+`driver_fftn_is_dft`, `poly_dense_value`, `poly_conj_is_conj` are not vacuous -/
+example : PrimRoots (cEv [3, 1, 2]) [3, 1, 2] ∧ (cEv [3, 1, 2]).ConjOK (starRingEnd ℂ) 3 :=
+  ⟨(driver_complex [3, 1, 2] (by decide)).1, (driver_complex [3, 1, 2] (by decide)).2.1⟩
+
+/-- a symbolic field as the driver builds it (Gaussian-rational constants) is a valid field, and
+`fftn` over `Poly` succeeds on it: the hypothesis `fftn (Poly.roots shape) f = .ok g` of
+`driver_fftn_is_dft` is satisfiable -/
+example : ∃ g, fftn (Poly.roots [3, 1, 2])
+    ({ mesh := exMesh, nvdim := 1,
+       data := ⟨[3, 1, 2], fun i => [Poly.const (i.getD 0 0 : Rat) 1]⟩,
+       vdims := none, vmap := [], unit := none } : CF Poly) = .ok g :=
+  ⟨_, fftn_ok _ _ ⟨exMesh_inv, rfl, by decide, Or.inl ⟨rfl, rfl, rfl⟩⟩⟩
 
 end DFV.C11
